@@ -1,11 +1,3 @@
-// Package erange is the E-RANGE engine of DESIGN.md: a forward abstract
-// interpretation of go/ssa with big-integer intervals of the *mathematical*
-// (non-wrapped) value of every machine word, used to decide the clause "no
-// intermediate quantity silently wraps a machine word" for the limb code of
-// internal/field (C04) and curve/scalar (C05 d).
-//
-// Nothing of the analysed repository is ever executed: the interpreter below
-// evaluates SSA instructions over intervals, never over concrete inputs.
 package erange
 
 import (
